@@ -71,7 +71,9 @@ def tlc(module, cfg_text, work, env=None, workers=1, timeout=3600, xmx="4g", ext
         f.write(cfg_text)
     meta = os.path.join(work, "meta_" + tag)
     outp = os.path.join(work, out_name or (tag + ".out"))
-    jopts = ["-Xss1g", "-Xmx" + xmx, "-XX:+UseParallelGC"]
+    # single-worker runs (generation, adjudication) are GC-bound: the serial collector is 2-3x faster
+    # there than ParallelGC with 16 GC threads
+    jopts = ["-Xss512m", "-Xmx" + xmx] + (["-XX:+UseSerialGC"] if workers == 1 else ["-XX:+UseParallelGC", "-XX:ParallelGCThreads=%d" % min(8, workers)])
     if dfs:
         jopts.append("-Dtlc2.tool.queue.IStateQueue=StateDeque")
     cmd = ["java"] + jopts + ["-cp", tlc_classpath(), "tlc2.TLC", "-workers", str(workers), "-metadir", meta,
@@ -243,7 +245,7 @@ def adjudicate(pspec, records, work, parallel=8, constants=None, timeout=3600):
         if rc != 0 or not m or int(m.group(1)) != cnt:
             raise ToolError("P-spec %s did not consume all records of %s (rc=%d, %s)\n%s" % (pspec, fn, rc, m.group(0) if m else None, txt[-3000:]))
         r = []
-        for mm in re.finditer(r'<<"REJECT", (\d+), "([^"]*)">>', txt):
+        for mm in re.finditer(r'<<\s*"REJECT",\s*(\d+),\s*"([^"]*)"\s*>>', txt):
             r.append((int(mm.group(1)), mm.group(2)))
         os.remove(fn)
         return cnt, r
